@@ -259,9 +259,14 @@ func (c *compiler) relations(sb *simbox.Simbox) (drive, report string) {
 }
 
 // modelRelations: the same relations read off the ACTIVE rules as written (documented meaning).
-// onrecv rules are left out here (the implementation has no compiled form for them; that defect is
-// established by the process runs).
+// withRecv: include the onrecv rules (an implementation without a compiled form for onrecv is
+// accepted here; that defect is established by the process runs).
 func modelRelations(rules []mrule) (drive, report string) {
+	drive, report = modelRelationsR(rules, false)
+	return
+}
+
+func modelRelationsR(rules []mrule, withRecv bool) (drive, report string) {
 	var d, r []string
 	abs := map[string]string{}
 	for _, x := range rules {
@@ -286,6 +291,10 @@ func modelRelations(rules []mrule) (drive, report string) {
 				r = append(r, fmt.Sprintf("ev%s {%d %s} %s", x.Action, bondmachine.EVENTONVALID, x.Object, x.Object))
 			case "onexit":
 				r = append(r, fmt.Sprintf("ev%s {%d %s} %s", x.Action, bondmachine.EVENTONEXIT, x.Object, x.Object))
+			case "onrecv":
+				if withRecv {
+					r = append(r, fmt.Sprintf("ev%s {%d %s} %s", x.Action, bondmachine.EVENTONRECV, x.Object, x.Object))
+				}
 			}
 		}
 	}
